@@ -9,7 +9,8 @@ K: the real `asn1c` (built from the working tree) run as `-E -F -print-constrain
 P: an independent python oracle (c09_gen.py: X.680 set semantics by membership over sample points,
    X.691 9.3/10.3 visibility, X.696 8.2, layouts of X.691 10.5/10.9 and X.696 10.2) decides the
    expected printed root, extensibility and tables; plus "same set => same tables" on groups of
-   syntactically different types with equal visible root and extensibility.
+   syntactically different types with equal visible root and extensibility.  Extension additions are
+   expected in the "Practical constraints" line only (the range of the generated validity checker).
 """
 import json, os, re, shutil, subprocess, tempfile
 from concurrent.futures import ThreadPoolExecutor
@@ -179,24 +180,23 @@ def gen_cases(ctx):
             if legal_pairs is None: legal_pairs = [pr for pr in pairs if legal(*pr)]
             sel = rng.sample(legal_pairs, min(len(legal_pairs), n_pairs - 40)) + rng.sample(pairs, 40)
         if not quick and tag == "ref": sel = rng.sample(pairs, len(pairs) // 3)
-        if tag == "adds": sel = rng.sample(pairs, 12 if quick else 200)
+        if tag == "adds": sel = rng.sample(pairs, 120 if quick else 1500)
         for a, b in sel:
             add("INTEGER", f(a, b), "d1-" + tag)
     pairsN = [(a, b) for a in AN for b in AN]
     for tag, f in ops:
-        for a, b in rng.sample(pairsN, (6 if quick else 60) if tag == "adds" else (200 if quick else len(pairsN))):
+        for a, b in rng.sample(pairsN, (40 if quick else 300) if tag == "adds" else (200 if quick else len(pairsN))):
             lv = f(a, b)
             ty = rng.choice(["OCTET", "OCTET", "BITSTR", "UTF8"])
             add(ty, [[sizeify(rng, s) for s in l] for l in lv], "d1-size-" + tag)
 
     def mostly_sane(kind, mk):
-        """steer away from the F92 region: redraw (most) trees with an empty operand"""
+        """redraw (most) trees that denote the empty set (X.680 forbids them; nothing to check there);
+        trees with an empty operand, extension additions, several own markers … are kept"""
         for _ in range(6):
             lv = mk()
             ev = G.evaluate(kind, lv)
-            region = (ev.degenerate or ev.vis.empty() or ev.has_additions or ev.multi_own_ext
-                      or (ev.ext and ev.vis.lb() is None))       # F92, F11, F91, F94
-            if not region or rng.random() < 0.12: return lv
+            if not ev.vis.empty() or rng.random() < 0.12: return lv
         return lv
     scale = 1 if quick else 25
     # 3. random deeper trees (depth 2-3, width 2-3), chains of specs and references
@@ -212,7 +212,7 @@ def gen_cases(ctx):
                 e = rand_e(rng, vals, rng.choice([1, 2, 2, 3]))
                 t = rng.random()
                 if t < 0.12: lv.append(spec(e, True))
-                elif t < 0.125: lv.append(spec(e, True, rand_e(rng, UNIVERSE, 1)))
+                elif t < 0.15: lv.append(spec(e, True, rand_e(rng, UNIVERSE, 1)))
                 else: lv.append(spec(e))
             levels.append(lv)
         return levels
@@ -229,7 +229,7 @@ def gen_cases(ctx):
                 vals = vals_within("size", levels, lv, [0, 1, 2, 3, 4, 5, 6, 7]) if rng.random() < 0.85 else [0, 1, 2, 3, 4, 5, 6, 7]
                 e = rand_e(rng, vals, rng.choice([0, 1, 2]), lo_ok=True)
                 t = rng.random()
-                s = spec(e, True) if t < 0.15 else spec(e, True, rand_e(rng, [0, 1, 2, 3, 4, 5, 6, 7], 0)) if t < 0.16 else spec(e)
+                s = spec(e, True) if t < 0.15 else spec(e, True, rand_e(rng, [0, 1, 2, 3, 4, 5, 6, 7], 0)) if t < 0.19 else spec(e)
                 lv.append(sizeify(rng, s))
             levels.append(lv)
         return levels
@@ -437,7 +437,8 @@ def p_check(c):
     utf8 = c.ty == "UTF8"
     if not utf8:
         if d["per"] != exp_vis: fails.append(("per-visible root", exp_vis, d["per"]))
-    if d["prac"] != exp_vis: fails.append(("practical root", exp_vis, d["prac"]))
+    exp_prac = G.show_runs(ev.prac.runs(), kind, ext)      # = exp_vis unless there are extension additions
+    if d["prac"] != exp_prac: fails.append(("practical root", exp_prac, d["prac"]))
     # 2. OER-visible
     exp_oer = G.show_runs(ev.oer_vis.runs(), kind, False)
     if not (utf8 and kind == "size"):
@@ -571,7 +572,12 @@ def run(ctx):
         ctx.log("K: %d disagreements; first: %s | %s | C: %s | model: %s" % (len(dis), c.text, l, e, m))
     ctx.cov["distribution"] = {"types": len(cases), "asn1c_status": nst,
                                "by_tag": {t: sum(1 for c in cases if c.tag == t) for t in sorted(set(c.tag for c in cases))},
-                               "by_type": {t: sum(1 for c in cases if c.ty == t) for t in TYPES}}
+                               "by_type": {t: sum(1 for c in cases if c.ty == t) for t in TYPES},
+                               # the regions of the repaired findings F11, F92, F91, F94 (accepted types only)
+                               "regions": {"extension_additions": sum(1 for c in cases if c.c.get("status") == "ok" and c.ev.has_additions),
+                                           "empty_operand_nonempty_whole": sum(1 for c in cases if c.c.get("status") == "ok" and c.ev.degenerate and not c.ev.vis.empty()),
+                                           "own_nonlast_marker": sum(1 for c in cases if c.c.get("status") == "ok" and c.ev.multi_own_ext),
+                                           "extensible_no_lower_bound": sum(1 for c in cases if c.c.get("status") == "ok" and c.ev.ext and not c.ev.vis.empty() and c.ev.vis.lb() is None)}}
 
     # ---- P leg
     pf = []; np_ = 0; skipped = {"degenerate": 0, "nested-ext": 0, "rejected": 0}   # degenerate = the type denotes the empty set
@@ -589,7 +595,6 @@ def run(ctx):
     groups = {}
     for c in cases:
         if c.c.get("status") != "ok" or c.ev.degenerate or c.ev.nested_ext or c.ty == "UTF8": continue
-        if c.ev.has_additions or c.ev.multi_own_ext: continue
         key = (c.kind, c.ev.vis.lo, tuple(c.ev.vis.runs()), c.ev.vis.hi, c.ev.ext, c.ev.oer_vis.lo, tuple(c.ev.oer_vis.runs()), c.ev.oer_vis.hi)
         groups.setdefault(key, []).append(c)
     npairs = 0; same_fail = []
@@ -679,6 +684,13 @@ def encoding_leg(ctx, groups):
         lines = []; owner = []
         for gi, ms in enumerate(members):
             vals = root_values(ms[0])
+            # a value outside the root is a value of the type (of some version of it) only inside the parent
+            # the last constraint is applied to — in every member of the group
+            # (and with extension additions in the group the C representation may differ: `unsigned long` for
+            # (0..2, ..., 3..MAX), `long` for (0..2, ...) - asn1c_type_fits_long looks at the additions too -, so a
+            # value outside the root cannot be handed to both alike)
+            hasadd = any(m.ev.has_additions for m in ms)
+            vals = [(v, inr) for v, inr in vals if inr or (not hasadd and all(m.ev.last_parent.has(v) for m in ms))]
             for v, inr in vals:
                 sx = "(int %d)" % v if ms[0].kind == "int" else "(os %s)" % ("ab" * v if v else "-")
                 for syn in ("uper", "oer"):
